@@ -19,7 +19,7 @@ const DIRS: &[&str] = &["src", "src/comp", "src/comp/button", "lib", "src/util",
 const THRESH: &[f64] = &[0.0, 0.5, 0.8, 0.9, 1.0, 0.56, 0.1, 0.75];
 
 fn glob_match(pat: &str, path: &str) -> bool {
-    globset::Glob::new(pat).expect("pool pattern").compile_matcher().is_match(path)
+    crate::globfact::is_match(pat, path)
 }
 
 fn fields(mf: Option<i64>, md: Option<i64>, mdp: Option<i64>, wt: Option<f64>, wfa: Option<i64>, wda: Option<i64>, wft: Option<f64>, wdt: Option<f64>) -> String {
@@ -210,7 +210,7 @@ fn emit_base_depth(sink: &mut Sink, r: &mut Rng) {
     let pat: String = (0..n).map(|_| *r.pick(&comps)).collect::<Vec<_>>().join(if r.chance(1, 8) { "\\" } else { "/" });
     // observed through the checker: a relative-depth rule with max_depth 0 on a dir of depth d
     // fails iff d - base > 0; probe d upwards
-    let ok = globset::Glob::new(&pat).is_ok();
+    let ok = crate::globfact::is_valid(&pat);
     let implementation = if ok { base_depth_spec(&pat).to_string() } else { "-".to_string() };
     sink.push(Case { request: format!("base-depth {}", enc(&pat)), implementation, pred: "ok".into(), tag: "base-depth".into() });
 }
@@ -398,5 +398,6 @@ pub fn run(tier: Tier, seed: u64, out: &str) {
         emit_struct_dir(&mut sink, &mut r);
     }
     sink.extra.insert("trivial_tag_prefixes".into(), serde_json::json!(["struct-dir/m0/clean"]));
+    crate::globfact::flush(&mut sink);
     sink.finish(out);
 }
